@@ -1,6 +1,7 @@
 """C14 — printed instruction text re-assembles to the same instruction (ENUM)."""
 from __future__ import annotations
 
+import collections
 import itertools
 
 import fixedint
@@ -262,6 +263,7 @@ def exec_specs():
 
 
 _TEXT_OK: dict = {}
+SEEN = collections.Counter()
 
 
 def text_denotes(text, addr, want):
@@ -325,6 +327,7 @@ def exec_views(spec, mode, regval, at):
         d = {i: v for i, _f, v in vals}
         t, a = (d.get("InstructionMemoryInstrText"), d.get("InstructionReadAddressText")) if five else (d.get("instr-mem-instr-text"), d.get("instr-mem-read-addr-text"))
         if t and a not in (None, "") and int(a) in want:
+            SEEN["pipeline-view-text-checked"] += 1
             dd = text_denotes(t, int(a), want[int(a)])
             if dd:
                 bad.append(("pipeline-view", f"{when}: pipeline view: {dd}"))
@@ -337,6 +340,7 @@ def exec_views(spec, mode, regval, at):
             sim.step()
         except InstructionExecutionException as e:
             if e.address in want:
+                SEEN["error-text-checked"] += 1
                 dd = text_denotes(e.instruction_repr, e.address, want[e.address])
                 if dd:
                     bad.append(("error-message", f"error message after step {n}: {dd}"))
@@ -351,6 +355,7 @@ def exec_views(spec, mode, regval, at):
 def exec_shard(shard):
     part, parts = shard
     p = Partial()
+    SEEN.clear()
     for i, spec in enumerate(exec_specs()):
         if i % parts != part:
             continue
@@ -363,6 +368,7 @@ def exec_shard(shard):
                     for f, d in exec_views(spec, mode, regval, at)[:1]:
                         p.violation(dict(oracle="views-while-executing", field=f, mnemonic=spec[0]), dict(kind="exec", spec=list(spec), mode=mode, regval=regval, at=at),
                                     f"{spec} at {at}, {mode}, registers = {regval:#x}: {d}", size=(i, at, regval))
+    p.counters.update(SEEN)
     return p
 
 
@@ -415,7 +421,7 @@ def run(ctx):
     t0 = time.time()
     part = pmap(exec_shard, [(i, 32) for i in range(32)])
     ctx.space("views-while-executing", part, t0, specs=len(exec_specs()), modes=2, register_fills=2, addresses=2)
-    ctx.require("views-while-executing")
+    ctx.require("views-while-executing", "pipeline-view-text-checked", "error-text-checked")
     t0 = time.time()
     Ls = (1, 2)
     part = pmap(listing_fixpoint_shard, [(L, f) for L in Ls for f in range(len(c04.ALL_KINDS))])
